@@ -3,6 +3,11 @@
 //
 //	race <seed> <milliseconds> <workers>
 //	meet <seed> <rounds> <bodysize>
+//	bwmeet <seed> <rounds> <bodysize>
+//
+// `bwmeet`: a block-wise upload (POST with an application-supplied body reader) whose context is cancelled at the moment
+// the peer's 2.31 Continue for the outstanding block is processed: the request call returns, the application releases
+// the request message and re-uses its body reader - the library must not still be reading either of them.
 //
 // `meet` arranges the meeting instead of waiting for it: a confirmable POST with a body is left unanswered until its
 // retransmission is due; then one goroutine runs the expiry sweep (which clones and retransmits the stored request) and
@@ -18,7 +23,9 @@ package c12race
 
 import (
 	"bufio"
+	"bytes"
 	"context"
+	"io"
 	"fmt"
 	"math/rand"
 	"strconv"
@@ -31,6 +38,7 @@ import (
 	"github.com/plgd-dev/go-coap/v3/message"
 	"github.com/plgd-dev/go-coap/v3/message/codes"
 	"github.com/plgd-dev/go-coap/v3/message/pool"
+	"github.com/plgd-dev/go-coap/v3/net/blockwise"
 	"github.com/plgd-dev/go-coap/v3/net/responsewriter"
 	udpclient "github.com/plgd-dev/go-coap/v3/udp/client"
 	udpcoder "github.com/plgd-dev/go-coap/v3/udp/coder"
@@ -291,6 +299,156 @@ func runMeet(seed int64, rounds int, bodySize int) string {
 	return fmt.Sprintf("ok rounds=%d answered=%d", met, answered)
 }
 
+// trackedBody is the application's body reader as the library sees it.  It knows whom the body belongs to: while the
+// request call runs the library may read it; once the call has returned it is the application's again.  A library read
+// that starts, or is still in progress, after the hand-back is a use after release.  Reads take a few microseconds
+// (a file or pipe would take longer).
+type trackedBody struct {
+	rd         *bytes.Reader
+	appOwns    atomic.Bool
+	inUse      atomic.Int32
+	lateUses   atomic.Int32
+	overlapped atomic.Int32
+}
+
+func (t *trackedBody) enter() {
+	if t.appOwns.Load() {
+		t.lateUses.Add(1)
+	}
+	t.inUse.Add(1)
+	spin(15 * time.Microsecond)
+}
+func (t *trackedBody) Read(p []byte) (int, error) {
+	t.enter()
+	defer t.inUse.Add(-1)
+	return t.rd.Read(p)
+}
+func (t *trackedBody) Seek(off int64, whence int) (int64, error) {
+	t.enter()
+	defer t.inUse.Add(-1)
+	return t.rd.Seek(off, whence)
+}
+
+// handBack is called by the application when its request call has returned.
+func (t *trackedBody) handBack() {
+	t.appOwns.Store(true)
+	if t.inUse.Load() > 0 {
+		t.overlapped.Add(1)
+	}
+}
+
+func runBWMeet(seed int64, rounds int, bodySize int) string {
+	cc, s := mem.NewUDPConn(mem.UDPOpts{Blockwise: true, BlockwiseSZX: blockwise.SZX16, BlockwiseTimeout: 200 * time.Millisecond,
+		Mutate: func(cfg *udpclient.Config) {
+			cfg.LimitClientParallelRequests = 8
+			cfg.LimitClientEndpointParallelRequests = 8
+			cfg.TransmissionAcknowledgeTimeout = time.Second
+			cfg.Handler = func(*responsewriter.ResponseWriter[*udpclient.Conn], *pool.Message) {}
+		}})
+	rng := rand.New(rand.NewSource(seed))
+	var mu sync.Mutex
+	var last *pool.Message
+	s.OnWrite = func(data []byte) {
+		m := pool.NewMessage(context.Background())
+		if _, err := m.UnmarshalWithDecoder(udpcoder.DefaultCoder, data); err != nil {
+			return
+		}
+		if m.Code() == codes.POST {
+			mu.Lock()
+			last = m
+			mu.Unlock()
+		}
+	}
+	body := make([]byte, bodySize)
+	for i := range body {
+		body[i] = byte(i * 7)
+	}
+	met, late, overlapped := 0, 0, 0
+	for r := 0; r < rounds; r++ {
+		mu.Lock()
+		last = nil
+		mu.Unlock()
+		ctx, cancel := context.WithCancel(context.Background())
+		rd := &trackedBody{rd: bytes.NewReader(body)}
+		req := cc.AcquireMessage(ctx)
+		req.SetCode(codes.POST)
+		tok := message.Token{0xB0, byte(r), byte(r >> 8)}
+		req.SetToken(tok)
+		_ = req.SetPath("/up")
+		req.SetContentFormat(message.AppOctets)
+		req.SetBody(rd)
+		done := make(chan struct{})
+		go func() {
+			defer close(done)
+			resp, err := cc.Do(req)
+			if err == nil {
+				cc.ReleaseMessage(resp)
+			}
+		}()
+		var first *pool.Message
+		for i := 0; i < 5000 && first == nil; i++ {
+			mu.Lock()
+			first = last
+			mu.Unlock()
+			if first == nil {
+				time.Sleep(20 * time.Microsecond)
+			}
+		}
+		if first == nil {
+			cancel()
+			<-done
+			continue
+		}
+		blk, _ := first.GetOptionUint32(message.Block1)
+		cont := pool.NewMessage(context.Background())
+		cont.SetCode(codes.Continue)
+		cont.SetToken(first.Token())
+		cont.SetType(message.Acknowledgement)
+		cont.SetMessageID(first.MessageID())
+		cont.SetOptionUint32(message.Block1, blk)
+		b, _ := cont.MarshalWithEncoder(udpcoder.DefaultCoder)
+		b = append([]byte(nil), b...)
+		skew := time.Duration(rng.Intn(30)) * time.Microsecond
+		firstActor := rng.Intn(2)
+		start := make(chan struct{})
+		var wg sync.WaitGroup
+		wg.Add(2)
+		go func() { // the peer's Continue is processed: the library cuts the next block out of the request's body
+			defer wg.Done()
+			<-start
+			if firstActor == 1 {
+				spin(skew)
+			}
+			_ = cc.Process(nil, b)
+		}()
+		go func() { // the application gives up: once the call has returned the request and its body are the application's again
+			defer wg.Done()
+			<-start
+			if firstActor == 0 {
+				spin(skew)
+			}
+			cancel()
+			<-done
+			rd.handBack()
+			_, _ = rd.rd.Seek(0, io.SeekStart) // the application re-uses its reader
+			_, _ = rd.rd.Read(make([]byte, 8))
+			cc.ReleaseMessage(req)
+		}()
+		close(start)
+		wg.Wait()
+		time.Sleep(200 * time.Microsecond)
+		late += int(rd.lateUses.Load())
+		overlapped += int(rd.overlapped.Load())
+		met++
+	}
+	_ = cc.Close()
+	<-cc.Done()
+	if late+overlapped > 0 {
+		return fmt.Sprintf("bad use-after-handback rounds=%d late=%d overlapped=%d", met, late, overlapped)
+	}
+	return fmt.Sprintf("ok rounds=%d", met)
+}
+
 // spin waits without yielding to the scheduler for long: a sleep would be far too coarse
 func spin(d time.Duration) {
 	t := time.Now()
@@ -305,6 +463,13 @@ func TestC12Race(t *testing.T) {
 			ms, _ := strconv.Atoi(f[2])
 			workers, _ := strconv.Atoi(f[3])
 			fmt.Fprintln(w, runRace(seed, ms, workers))
+			return
+		}
+		if len(f) == 4 && f[0] == "bwmeet" {
+			seed, _ := strconv.ParseInt(f[1], 10, 64)
+			rounds, _ := strconv.Atoi(f[2])
+			size, _ := strconv.Atoi(f[3])
+			fmt.Fprintln(w, runBWMeet(seed, rounds, size))
 			return
 		}
 		if len(f) == 4 && f[0] == "meet" {
